@@ -11,7 +11,7 @@ PID = "C04"
 BINS = ["x_core", "x_derived"]
 RULE = ("every operator instance licensed by the declared derivations (catalogue 34, synthetic 14, astro 4 [f64]) x ALL unit pairs of the "
         "operand types (exhaustive) x seeded in-range amount pairs; each request evaluates the four operand forms a op b, &a op b, a op &b, "
-        "&a op &b (existence decided by trait resolution and reported at run time, with the Output type name); second pass feeds every result "
+        "&a op &b, and a quarter of the workload again on an executor built without std (existence decided by trait resolution and reported at run time, with the Output type name); second pass feeds every result "
         "into the inverse instance ((a*b)/b, (a/b)*b); cell = (backend,instance,u,v,form); non-trivial = both amounts non-zero and scale "
         "product/ratio != 1")
 EXHAUSTIVE = True
@@ -30,6 +30,9 @@ def plan(env, tier, seed):
             l, op, r, out = inst[:4]
             tasks.append({"backend": b, "inst": inst, "l": reg[l], "r": reg[r], "out": reg[out], "n": n, "seed": seed,
                           "bin": e["bins"]["x_derived"], "inst_all": [i[:4] for i in dl.expected_instances(b)]})
+            if "x_derived_nostd" in e["bins"] and inst[4] != "astro_derivations":
+                # the same instance on the executor built without std (library and the crate expanding the macro), reduced workload
+                tasks.append(dict(tasks[-1], bin=e["bins"]["x_derived_nostd"], n=max(1, n // 4), lib="no_std"))
     return tasks
 
 
